@@ -98,8 +98,15 @@ let run_impl ~(ops : (string * string) list) ~maxmem ~pool ~use_write ~fail_at ~
 let hangs = ref 0
 let check acc ~klass ~(ops : (string * string) list) ~maxmem ~pool ~use_write ~fail_at =
   if !hangs >= 3 && pool <> 0 then () else
+  (* the configured temporary directory: short, or (every fourth case) a path of more than 255 bytes made of nested
+     directories - longer than any single path component may be, well below PATH_MAX *)
   let tmp = Filename.concat (Wr.tmpdir ()) "sorter_spill" in
   (try Unix.mkdir tmp 0o755 with _ -> ());
+  let tmp = if (List.length ops + maxmem + pool) mod 4 <> 0 then tmp else begin
+      let d = ref tmp in
+      List.iter (fun c -> d := Filename.concat !d (String.make 70 c); (try Unix.mkdir !d 0o755 with _ -> ())) [ 'a'; 'b'; 'c'; 'd' ];
+      bump acc "long_temp_dir";
+      !d end in
   let case = lazy (JO [ "adds", entries_json ops; "max_memory", JI maxmem; "pool", JI pool; "via_sorter_write", JB use_write; "merge_fails_at", JI fail_at ]) in
   (* model *)
   let calls = ref 0 in
